@@ -540,5 +540,53 @@ func checkC13(c *Check) {
 		}
 	}
 	c.Hold("R4", "CheckConn:lookup-failure-defers", cc.FI.Decl.Pos(), msg == "", msg)
+	// the discovery itself: an error of any resolver call that is not "not found" ends the discovery with that
+	// error – it is never treated like an empty answer (no fall-through to another lookup, no nil-error return)
+	c.Rule("R5", "discoverTLSA: a resolver error other than not-found is returned; it never falls through to a further lookup or to a 'no records' result", 3)
+	if rd := c.need("R5", remoteRel, "daneDelivery", "discoverTLSA"); rd != nil {
+		di := rd.Info
+		isResolver := func(info *types.Info, call *ast.CallExpr) bool {
+			switch methodName(call) {
+			case "AuthLookupTLSA", "CheckCNAMEAD", "AuthLookupCNAME", "AuthLookupHost", "AuthLookupIPAddr":
+				return true
+			}
+			return false
+		}
+		calls := rd.Calls(isResolver)
+		if len(calls) < 3 {
+			c.Fail("R5", "discoverTLSA:lookups", rd.FI.Decl.Pos(), "undecided: expected the CNAME/AD check and the TLSA lookups")
+		}
+		for i, cp := range calls {
+			call := rd.CallAt(cp, isResolver)
+			key := "discoverTLSA:" + methodName(call) + itoa(i+1)
+			eo := errVarAssigned(di, cp.Node(), call)
+			if eo == nil {
+				c.Hold("R5", key, call.Pos(), false, "the error of "+methodName(call)+" is dropped")
+				continue
+			}
+			// world: the error is not a not-found error
+			world := rd.F.World(func(atom ast.Expr) (bool, bool) {
+				if ic, ok := ast.Unparen(atom).(*ast.CallExpr); ok && isCall(di, ic, dnsPkg+".IsNotFound") && len(ic.Args) == 1 && objOf(di, ic.Args[0]) == eo {
+					return false, true
+				}
+				if ns, ok := nilTest(di, atom, eo); ok {
+					return ns == 1, true // the atom is true iff it says "non-nil"
+				}
+				return false, false
+			})
+			bad := func(pt Pt) bool {
+				if pt == cp {
+					return false
+				}
+				if rd.IsCallPt(isResolver)(pt) {
+					return true
+				}
+				_, ret := rd.F.Exit(pt)
+				return ret != nil && len(ret.Results) == 2 && isNilIdent(di, ret.Results[1])
+			}
+			path, f := rd.F.ReachRefined2(cp, eo, false, false, bad, nil, world)
+			c.Hold("R5", key, call.Pos(), !f, "a failed "+methodName(call)+" (SERVFAIL, bogus signature, time-out) is treated like an empty answer: discovery goes on / reports 'no records' and the delivery proceeds without DANE instead of being deferred: "+rd.F.Describe(path))
+		}
+	}
 	_ = p
 }
